@@ -41,6 +41,19 @@ def struct_cases(tier, seed):
                     req = [int(rng.choice([1, 2, 3, 5, 8, 12])) for _ in range(N)]
                     add("tr", shape, "list", req + [req[0]], mode=mode)
             add("tr", shape, "list", [1] + [2] * (N - 1) + [2], mode=0)  # ring not closed: must raise
+        # magnitudes: the ranks of a generic tensor do not depend on its units
+        for sc in (1e-18, 1e-9, 1e12):
+            add("tt", shape, "int", [int(rng.choice([2, 3, 40]))], scale=sc)
+            if N >= 3:
+                add("tr", shape, "int", [int(rng.choice([1, 2]))], mode=int(rng.randint(0, N)), scale=sc)
+            add("tucker", shape, "list", [int(rng.randint(1, s + 1)) for s in shape], scale=sc)
+        # partial Tucker on a subset of the modes: rank None (= keep the size of THOSE modes), int, list
+        if N >= 3:
+            for modes in ([1, 2], [0, N - 1], [N - 1], [2, 0]):
+                add("ptucker", shape, "none", [], modes=modes)
+                add("ptucker", shape, "int", [int(rng.randint(1, 4))], modes=modes)
+                add("ptucker", shape, "list", [int(rng.randint(1, shape[m] + 1)) for m in modes], modes=modes)
+        add("tucker", shape, "none", [])
         for r in (1, 2, 3):
             add("tucker", shape, "int", [r])
         add("tucker", shape, "list", [int(rng.randint(1, s + 1)) for s in shape])
@@ -65,6 +78,8 @@ def _rank_arg(c):
         return list(c["req"])
     if c["kind"] == "same":
         return "same"
+    if c["kind"] == "none":
+        return None
     return float(c["frac"])
 
 
@@ -73,8 +88,8 @@ def execute(c):
     from tensorly import decomposition as D
     rng = _rng(c["seed"])
     shape = tuple(c["shape"])
-    X = rng.standard_normal(shape)
-    ev = {"id": c["id"], "fam": c["fam"], "shape": list(shape), "kind": c["kind"], "req": list(c["req"]), "mode": int(c.get("mode", 0)),
+    X = rng.standard_normal(shape) * c.get("scale", 1.0)
+    ev = {"id": c["id"], "modes": [int(m) for m in c.get("modes", [])], "fam": c["fam"], "shape": list(shape), "kind": c["kind"], "req": list(c["req"]), "mode": int(c.get("mode", 0)),
           "out": "ok", "ranks": [], "fshapes": [], "orth": [], "core_shape": [], "n_param_dev": 0, "n_param_slack": 0}
     rank = _rank_arg(c)
     try:
@@ -89,6 +104,11 @@ def execute(c):
             fs = [np.asarray(f) for f in tr]
             ev["fshapes"] = [list(f.shape) for f in fs]
             ev["ranks"] = [int(r) for r in tr.rank]
+        elif c["fam"] == "ptucker":
+            (core, fs), _ = D.partial_tucker(X, rank, modes=list(c["modes"]), n_iter_max=3, tol=0)
+            ev["fshapes"] = [list(np.shape(f)) for f in fs]
+            ev["core_shape"] = list(np.shape(core))
+            ev["orth"] = [qe(max(gram_dev(f) for f in fs))]
         elif c["fam"] == "tucker":
             core, fs = D.tucker(X, rank, n_iter_max=3, tol=0)
             ev["fshapes"] = [list(np.shape(f)) for f in fs]
